@@ -108,8 +108,8 @@ class Ctx:
         self.st.set_iv(t, r[0], r[1])
         return ("n", t, 0)
 
-    def oblige(self, cls, ok, rule, what, lift=None, trust=None):
-        self.an.oblige(self.bi, cls, ok, rule, self.an.describe(self.t), self.t, what, lift, trust)
+    def oblige(self, cls, ok, rule, what, lift=None, trust=None, tag=""):
+        self.an.oblige(self.bi, cls, ok, rule, self.an.describe(self.t) + tag, self.t, what, lift, trust)
 
     def dest_place(self):
         c = self.an.canon(self.st, self.dest)
@@ -327,7 +327,7 @@ def m_index(c):
         if ok:
             rule = "D1" if ln[0] == "n" and ln[1] is None else "D3" if ixm[0] == "n" and ixm[1] is not None else "D2"
         c.oblige("S2", ok, rule, "index %s may be >= length %s%s" % (c.an.vs(ixm), c.an.vs(ln), " or negative" if len(cons) > 1 else ""),
-                 None if ok else c.an.conj_lift(un))
+                 None if ok else c.an.conj_lift(un), tag=c.an.fail_tag(cons, un))
         c.an.conj_assume(st, cons)
         ix = ixm if (len(cons) > 1) else ix
         if pl is not None and ix[0] == "n" and isinstance(pl[0], int):
@@ -345,7 +345,8 @@ def m_index(c):
     cons = [(start, end, 0), (end, ln, 0)]
     ok, un = c.an.conj_check(st, cons)
     c.oblige("S2", ok, "D4" if ok else None,
-             "range %s..%s may exceed length %s or start > end" % (c.an.vs(start), c.an.vs(end), c.an.vs(ln)), None if ok else c.an.conj_lift(un))
+             "range %s..%s may exceed length %s or start > end" % (c.an.vs(start), c.an.vs(end), c.an.vs(ln)), None if ok else c.an.conj_lift(un),
+             tag=c.an.fail_tag(cons, un))
     c.an.conj_assume(st, cons)
     # the result is a new slice place rooted at the destination
     d = c.dest_place()
@@ -599,7 +600,7 @@ def m_insert(c):
     ixm, cons = c.an.index_constraints(c.st, c.raw(1), ln, 0)
     ok, un = c.an.conj_check(c.st, cons)
     c.oblige("S3", ok, "D4" if ok else None, "insert at %s may exceed length %s%s" % (c.an.vs(ixm), c.an.vs(ln), " or be negative" if len(cons) > 1 else ""),
-             None if ok else c.an.conj_lift(un))
+             None if ok else c.an.conj_lift(un), tag=c.an.fail_tag(cons, un))
     c.an.conj_assume(c.st, cons)
     t, pl = _len_term(c)
     if t is not None:
@@ -625,7 +626,7 @@ def m_remove(c):
     ixm, cons = c.an.index_constraints(c.st, c.raw(1), ln, -1)
     ok, un = c.an.conj_check(c.st, cons)
     c.oblige("S3", ok, "D4" if ok else None, "remove at %s may be >= length %s%s" % (c.an.vs(ixm), c.an.vs(ln), " or negative" if len(cons) > 1 else ""),
-             None if ok else c.an.conj_lift(un))
+             None if ok else c.an.conj_lift(un), tag=c.an.fail_tag(cons, un))
     c.an.conj_assume(c.st, cons)
     t, pl = _len_term(c)
     if t is not None:
